@@ -107,8 +107,13 @@ func (in *interp) global(g *ssa.Global) *value {
 	}
 	pkg := g.Pkg
 	in.initPackageGlobals(pkg)
+	if !in.x.cfg.shouldInit(pkg.Pkg.Path()) {
+		// zero value of a global whose package initialiser is not run: recorded in the evidence
+		in.x.mu.Lock()
+		in.x.foreignGlobals[pkg.Pkg.Path()+"."+g.Name()] = true
+		in.x.mu.Unlock()
+	}
 	if in.x.cfg.shouldInit(pkg.Pkg.Path()) && !in.inited[pkg] {
-		in.inited[pkg] = true
 		if initFn := pkg.Func("init"); initFn != nil {
 			in.call(nil, token.NoPos, initFn, nil)
 		}
@@ -466,6 +471,8 @@ func (in *interp) call(caller *frame, callpos token.Pos, fn value, args []value)
 		return in.callSSA(caller, callpos, fn.Fn, args, fn.Env)
 	case *ssa.Builtin:
 		return in.callBuiltin(caller, callpos, fn, args)
+	case *hostFunc:
+		return fn.f(in, args)
 	}
 	panic(fmt.Sprintf("cannot call %T", fn))
 }
@@ -519,6 +526,9 @@ func (in *interp) callSSA(caller *frame, callpos token.Pos, fn *ssa.Function, ar
 	}
 	if cfg.isHolePkg(path) {
 		return in.holeResult(fn.Signature.Results())
+	}
+	if strings.HasSuffix(path, "protobuf/proto") && strings.HasPrefix(fn.Name(), "Register") {
+		return zero(fn.Signature.Results()) // protobuf type registries are not used by the encoded code
 	}
 	if !cfg.mayInterpret(path) {
 		unsupported("call into package %q (function %s) which is neither modelled nor whitelisted for interpretation", path, name)
